@@ -55,3 +55,50 @@ def first_diff(a, b, path="root"):
 def echo_canon(x, opts):
     """run in a worker process: the canonical form of what arrived after crossing the process boundary"""
     return canon(x, **opts)
+
+
+def lock_behaviour(x):
+    """what a (sub-)tensordict that reports is_locked does when it is asked to change: a sub-tensordict of a locked tensordict cannot be
+    unlocked on its own, and no entry can be added under a locked root — on the original and on every copy of it alike.
+    Returns the list of probes that were *accepted* (empty = behaves locked). Probes that succeed are undone."""
+    import torch
+    from tensordict import LazyStackedTensorDict, TensorDictBase, is_tensorclass
+    accepted = []
+    root = x._tensordict if is_tensorclass(x) else x
+    if not isinstance(root, TensorDictBase) or not root.is_locked:
+        return accepted
+    subs = list(root.tensordicts) if isinstance(root, LazyStackedTensorDict) else \
+        [v for v in root.values() if isinstance(v, TensorDictBase) or (is_tensorclass(v) and hasattr(v, "_tensordict") and not getattr(v, "_is_non_tensor", False))]
+    for sub in subs[:2]:
+        sub_td = sub._tensordict if is_tensorclass(sub) else sub
+        # (a refused unlock_ costs a full garbage collection and two reprs inside the library — 0.2 s a call: when the lock graph plainly
+        #  holds a live locked parent, which is what makes unlock_ refuse, the call itself is skipped)
+        refs = getattr(sub_td, "_lock_parents_weakrefs", None)
+        held = refs is not None and any(getattr(r(), "_is_locked", False) for r in refs if r() is not None)
+        if not held:
+            try:
+                sub_td.unlock_()
+                accepted.append("sub-tensordict.unlock_()")
+                root.lock_()
+            except RuntimeError:
+                pass
+        try:
+            sub_td.set("zz_probe", torch.zeros(sub_td.batch_size))
+            accepted.append("sub-tensordict.set(new key)")
+            was = sub_td.is_locked
+            if was:
+                sub_td.unlock_()
+            sub_td.del_("zz_probe")
+            root.lock_()
+        except (RuntimeError, KeyError, ValueError):
+            pass
+    if not isinstance(root, LazyStackedTensorDict):
+        try:
+            root.set("zz_probe", torch.zeros(root.batch_size))
+            accepted.append("root.set(new key)")
+            root.unlock_()
+            root.del_("zz_probe")
+            root.lock_()
+        except (RuntimeError, KeyError, ValueError):
+            pass
+    return accepted
